@@ -648,7 +648,10 @@ impl<'de, R: Read<'de>> Parser<R> {
                 if SYMBOL_EXTENDED.contains(&peek) {
                     Token::Symbol(self.parse_symbol()?.into())
                 } else {
-                    return Err(self.peek_error(ErrorCode::ExpectedSomeValue));
+                    // Consume the offending byte, so that a caller which
+                    // carries on after the error makes progress.
+                    self.eat_char();
+                    return Err(self.error(ErrorCode::ExpectedSomeValue));
                 }
             }
         };
